@@ -101,6 +101,8 @@ Proof.
     apply in_app_or in Hy as [Hy|Hy]; eauto.
   - destruct (eval env e1) eqn:E1; [|discriminate]. destruct (eval env e2) eqn:E2; [|discriminate].
     apply in_app_or in Hy as [Hy|Hy]; eauto.
+  - destruct (eval env e1) eqn:E1; [|discriminate]. destruct (eval env e2) eqn:E2; [|discriminate].
+    apply in_app_or in Hy as [Hy|Hy]; eauto.
 Qed.
 
 Lemma in_vars e y : In y (vars e) <-> In y (free_vars e).
